@@ -18,6 +18,7 @@ import OmbottModel.Drv.RouterListing
 import OmbottModel.Drv.App
 import OmbottModel.Drv.RespHelp
 import OmbottModel.Drv.Upload
+import OmbottModel.Drv.Config
 /-! Dispatch of a protocol line to the area handlers.  `State` holds the few models that are
 driven as state machines across lines (router, multipart feed, header store). -/
 namespace Drv
@@ -55,6 +56,7 @@ def step (st : State) (line : String) : State × String :=
     | "app" => pure? (App.handle rest)
     | "resphelp" => pure? (RespHelp.handle rest)
     | "upload" => pure? (Upload.handle rest)
+    | "config" => pure? (Config.handle rest)
     | _ => (st, "bad-op")
 
 end Drv
